@@ -1,0 +1,33 @@
+//go:build verif
+
+package batchrelease
+
+import (
+	"sort"
+
+	"sigs.k8s.io/controller-runtime/pkg/client"
+)
+
+// VerifExpectationObserved is what the workload event handler does first for every
+// create/update event (verification harness only).
+func VerifExpectationObserved(obj client.Object) { expectationObserved(obj) }
+
+// VerifControllerKey exposes the expectation key the event handler derives from an object.
+func VerifControllerKey(obj client.Object) (string, bool) {
+	k := getControllerKey(obj)
+	if k == nil {
+		return "", false
+	}
+	return *k, true
+}
+
+// VerifWatchedKinds lists the dynamic watch registry of the BatchRelease controller.
+func VerifWatchedKinds() []string {
+	out := []string{}
+	watchedWorkload.Range(func(k, _ interface{}) bool {
+		out = append(out, k.(string))
+		return true
+	})
+	sort.Strings(out)
+	return out
+}
